@@ -144,5 +144,6 @@ func (p IdentityPather) NameFromBlobPath(bp string) (string, error) {
 	if !strings.HasPrefix(bp, p.root) {
 		return "", errors.New("invalid identity path format")
 	}
-	return bp[len(p.root)+1:], nil
+	// The root may or may not end with a slash (and may be "/" itself).
+	return strings.TrimPrefix(bp[len(p.root):], "/"), nil
 }
